@@ -2,7 +2,7 @@
     This file holds only the exported statements. *)
 From Coq Require Import List Bool Arith ZArith.
 Import ListNotations.
-Require Import Nib.C06.Model Nib.C06.Spec Nib.C06.Proofs Nib.C06.ProofsExact.
+Require Import Nib.C06.Model Nib.C06.Spec Nib.C06.Proofs Nib.C06.ProofsExact Nib.C06.ProofsSpell.
 Local Open Scope Z_scope.
 
 (** After EVERY transaction of EVERY history (any sequence of funding, ERC20 deployments of any
@@ -128,3 +128,32 @@ Print Assumptions C06_rejected_or_reverted_changes_nothing.
 Theorem C06_checker_sound : forall tr, Pb tr = true -> P tr.
 Proof. exact Pb_sound. Qed.
 Print Assumptions C06_checker_sound.
+
+(** Denoms are STRINGS.  [C06_backing_invariant] above quantifies over every spelling ([DIbc], [DAlt]: the same IBC voucher
+    hash in lower / upper / mixed case, "UCOIN0", a lower-case "erc20/0xabc…"): each is its own bank denom with its own
+    metadata and at most one mapping.  More generally, for ANY function by which createFunTokenFromCoin might rewrite the
+    denom of the message and ANY choice of which value (as given / rewritten) its index guard, its metadata lookup and its
+    insert use: as long as the guard looks at the value that is inserted, the whole property holds for every history. *)
+Theorem C06_guard_checks_what_is_inserted : forall (cn : denom -> denom) (c : create_denoms) (ops : list op),
+  cd_guard c = cd_insert c ->
+  P (views_with cn c init ops) /\
+  NoDup (map m_tok (reg (run_with cn c init ops))) /\ NoDup (map m_den (reg (run_with cn c init ops))).
+Proof. intros cn c ops C. split; [exact (consistent_create_safe cn c ops C) | exact (consistent_create_unique cn c ops C)]. Qed.
+Print Assumptions C06_guard_checks_what_is_inserted.
+
+(** the model's configuration (all three steps use the string as given — what Gen/C06Facts.v must report for the current
+    tree) is the model, whatever the rewrite function *)
+Theorem C06_model_config_is_model : forall cn s o ops,
+  exec_with cn model_create_denoms s o = exec s o /\ step_with cn model_create_denoms s o = step s o /\
+  views_with cn model_create_denoms s ops = views s ops.
+Proof. intros. split; [apply exec_with_model | split; [apply step_with_model | apply views_with_model]]. Qed.
+Print Assumptions C06_model_config_is_model.
+
+(** … and the statement is FALSE for the variant that guards the string as given and then resolves a voucher hash of any
+    letter case to the voucher before the metadata lookup and the insert: re-registering a mapped voucher with a lower-case
+    hash yields two mappings for one bank denom. *)
+Theorem C06_rewrite_after_guard_refuted :
+  exists ops, ~ P (views_with canon_ibc_hash rewrite_after_guard init ops) /\
+              map m_den (reg (run_with canon_ibc_hash rewrite_after_guard init ops)) = [DIbc 0; DIbc 0]%nat.
+Proof. exists ex_respell. split; [exact rewrite_after_guard_refuted | exact rewrite_after_guard_two_mappings]. Qed.
+Print Assumptions C06_rewrite_after_guard_refuted.
